@@ -24,10 +24,12 @@ def sh(cmd, **kw):
 def main():
     names = sorted(os.listdir(SRC))
     only = sys.argv[1:]
-    for name in names:
-        if only and name not in only:
+    prefix = os.environ.get("SEEDED_PREFIX", "")
+    for src_name in names:
+        name = prefix + src_name
+        if only and name not in only and src_name not in only:
             continue
-        d = os.path.join(SRC, name)
+        d = os.path.join(SRC, src_name)
         log = "/tmp/mw_matrix_%s.log" % name
         if not os.path.exists(log):
             print(name, "no matrix log yet")
@@ -51,7 +53,7 @@ def main():
         ap = sh("git -C %s apply %s/patch.diff || git -C %s apply --3way %s/patch.diff" % (wt, d, wt, d))
         diff = sh("git -C %s diff HEAD" % wt).stdout
         sh("git -C /repo worktree remove --force %s; git -C /repo worktree prune" % wt)
-        prop = name.split("_")[0]
+        prop = src_name.split("_")[0]
         own = os.path.exists(os.path.join(d, "info.json"))
         if own:
             prop = json.load(open(os.path.join(d, "info.json")))["prop"]
@@ -68,6 +70,7 @@ def main():
         fired = sorted(k for k, v in caught.items() if v["exit"] == 1)
         meta = {
             "name": name, "breaks_property": prop, "property_title": PROPS[prop]["title"],
+            "round": (2 if prefix == "r2_" else 1),
             "origin": ("reverse of one of the repository repairs of DESIGN.md section 8 (a historical defect the baseline tests never noticed); written by the framework author" if own else
                        "written by an independent sub-agent that was given only the property text and a scratch worktree"),
             "needs_to_manifest": notes.strip()[:1500],
